@@ -24,7 +24,7 @@ From Coq Require Export ZArith NArith List Bool.
 Local Open Scope Z_scope.
 
 Inductive cub : Type :=
-| UB_signed_overflow | UB_shift | UB_div_zero | UB_uninit_read | UB_no_return.
+| UB_signed_overflow | UB_shift | UB_div_zero | UB_uninit_read | UB_no_return | UB_null_deref.
 
 Inductive cres (A : Type) : Type :=
 | COk (a : A)
@@ -174,6 +174,58 @@ Fixpoint upd (m : list N) (k : nat) (v : N) : list N :=
 Definition c_store (m : list N) (i v : cres Z) : cres (list N) :=
   k <- i ;; x <- v ;;
   if (0 <=? k) && (k <? Z.of_nat (length m)) then COk (upd m (Z.to_nat k) (Z.to_N x)) else COob.
+
+(* p + k passed to a function that takes a byte pointer: the callee sees the
+   object from index k on (so an index below k is COob in the callee even where
+   C would allow it: conservative); a callee that may write returns its view,
+   which is put back in place *)
+Definition c_view (m : list N) (off : cres Z) : cres (list N) :=
+  k <- off ;;
+  if (0 <=? k) && (k <=? Z.of_nat (length m)) then COk (skipn (Z.to_nat k) m) else COob.
+Definition c_unview (m : list N) (off : cres Z) (m' : list N) : cres (list N) :=
+  k <- off ;;
+  if (0 <=? k) && (k <=? Z.of_nat (length m)) then COk (firstn (Z.to_nat k) m ++ m') else COob.
+
+(* a local `uint8_t a[n]`: every element starts without a value *)
+Definition c_anew (n : nat) : list (option N) := repeat None n.
+Fixpoint aupd (m : list (option N)) (k : nat) (v : option N) : list (option N) :=
+  match m, k with
+  | [], _ => []
+  | _ :: t, O => v :: t
+  | h :: t, S k' => h :: aupd t k' v
+  end.
+Fixpoint anth (m : list (option N)) (k : nat) : option N :=
+  match m, k with
+  | [], _ => None
+  | h :: _, O => h
+  | _ :: t, S k' => anth t k'
+  end.
+Definition c_aload (m : list (option N)) (i : cres Z) : cres Z :=
+  k <- i ;;
+  if (0 <=? k) && (k <? Z.of_nat (length m)) then
+    match anth m (Z.to_nat k) with
+    | Some b => COk (Z.of_N b)
+    | None => CUB UB_uninit_read
+    end
+  else COob.
+Definition c_astore (m : list (option N)) (i v : cres Z) : cres (list (option N)) :=
+  k <- i ;; x <- v ;;
+  if (0 <=? k) && (k <? Z.of_nat (length m)) then COk (aupd m (Z.to_nat k) (Some (Z.to_N x))) else COob.
+
+(* the object a `uint64_t *` (any non-byte scalar type) parameter that the
+   function indexes points to: a list of values, index i is p[i] *)
+Fixpoint zupd (m : list Z) (k : nat) (v : Z) : list Z :=
+  match m, k with
+  | [], _ => []
+  | _ :: t, O => v :: t
+  | h :: t, S k' => h :: zupd t k' v
+  end.
+Definition c_zload (m : list Z) (i : cres Z) : cres Z :=
+  k <- i ;;
+  if (0 <=? k) && (k <? Z.of_nat (length m)) then COk (nth (Z.to_nat k) m 0) else COob.
+Definition c_zstore (m : list Z) (i v : cres Z) : cres (list Z) :=
+  k <- i ;; x <- v ;;
+  if (0 <=? k) && (k <? Z.of_nat (length m)) then COk (zupd m (Z.to_nat k) x) else COob.
 
 (* a scalar object reached through a pointer (`uint64_t *pResult`, or a local
    whose address is passed to a callee): None = not assigned yet *)
